@@ -1,11 +1,69 @@
-(* props/C06.v - NTT is the discrete Fourier transform over the field; INTT is its inverse. *)
+(* props/C06.v - NTT is the discrete Fourier transform over the field; INTT is its inverse.
+   Statements only; the proofs are in proofs/Ntt*.v.  Vocabulary:
+     ntt_b, intt_b, ...   model/Ntt.v instantiated with the regenerated base-field operations (Montgomery words)
+     canon, bden          proofs/BFieldProofs.v, proofs/BFieldOk.v: canonical word, denoted element of Fp
+     dft, idft            spec/Dft.v over the abstract field record fp_field (lib/FieldTheory.v) *)
 From Coq Require Import ZArith List.
-From TF Require Import Word BFieldGen BField XField FieldOps Lucas FieldTheory BFieldProofs BFieldOk NttRoots Ntt Dft NttProofs.
+From TF Require Import Word BFieldGen BField XField FieldOps Lucas FieldTheory BFieldProofs BFieldOk NttRoots Ntt Dft
+  NttDft NttProofs.
 Import ListNotations.
 Open Scope Z_scope.
 
-(* every tabulated root (regenerated table) has multiplicative order exactly n: r^n = 1 and r^(n/2) = -1 *)
-Theorem C06_roots_exact_order : forall n r, In (n, r) PRIMITIVE_ROOTS ->
+(* every tabulated root (regenerated table, 34 entries: keys 0, 2^0 .. 2^32): r^n = 1 and r^(n/2) = -1 *)
+Theorem C06_roots_table : forall n r, In (n, r) PRIMITIVE_ROOTS ->
   0 <= r < Lucas.P /\ r ^ n mod Lucas.P = 1 /\ (2 <= n -> r ^ (n / 2) mod Lucas.P = Lucas.P - 1).
 Proof. exact roots_exact_order_Z. Qed.
+Print Assumptions C06_roots_table.
+
+Theorem C06_roots_table_keys : map fst PRIMITIVE_ROOTS = 0 :: map (fun k => 2 ^ Z.of_nat k) (seq 0 33).
+Proof. exact roots_table_keys. Qed.
+Print Assumptions C06_roots_table_keys.
+
+(* ... hence the library's root for 2^l has multiplicative order exactly 2^l *)
+Theorem C06_roots_exact_order : forall l omega, (l <= 32)%nat ->
+  primitive_root_of_unity (2 ^ Z.of_nat l) = Some omega ->
+  canon omega /\ kpow fp_field (bden omega) (2 ^ l) = k1 fp_field /\ half_root fp_field (bden omega) l /\
+  bden omega <> k0 fp_field /\
+  (forall d, (0 < d < 2 ^ l)%nat -> kpow fp_field (bden omega) d <> k1 fp_field).
+Proof. exact roots_exact_order. Qed.
 Print Assumptions C06_roots_exact_order.
+Example C06_roots_exact_order_ex : exists omega, primitive_root_of_unity (2 ^ Z.of_nat 32) = Some omega.
+Proof. apply root_exists. auto. Qed.
+
+(* the forward transform: for every k <= 31 and every vector of 2^k canonical elements *)
+Theorem C06_ntt_is_dft : forall l x, (l <= 31)%nat -> length x = (2 ^ l)%nat -> Forall canon x ->
+  exists y omega, primitive_root_of_unity (2 ^ Z.of_nat l) = Some omega /\ ntt_b x = Some y /\
+    Forall canon y /\ length y = length x /\ map bden y = dft fp_field (bden omega) (map bden x).
+Proof. exact ntt_b_is_dft. Qed.
+Print Assumptions C06_ntt_is_dft.
+Example C06_ntt_is_dft_ex : length (map bfe_new [1; 2; 3; 4]) = (2 ^ 2)%nat /\ Forall canon (map bfe_new [1; 2; 3; 4]).
+Proof. split; [reflexivity|]. repeat (constructor; [apply closure_new; vm_compute; split; [discriminate|reflexivity]|]). constructor. Qed.
+
+Theorem C06_intt_is_idft : forall l x, (l <= 31)%nat -> length x = (2 ^ l)%nat -> Forall canon x ->
+  exists y omega, primitive_root_of_unity (2 ^ Z.of_nat l) = Some omega /\ intt_b x = Some y /\
+    Forall canon y /\ length y = length x /\ map bden y = idft fp_field (bden omega) (map bden x).
+Proof. exact intt_b_is_idft. Qed.
+Print Assumptions C06_intt_is_idft.
+
+(* exact inverses, on the words themselves *)
+Theorem C06_intt_ntt : forall l x, (l <= 31)%nat -> length x = (2 ^ l)%nat -> Forall canon x ->
+  exists y, ntt_b x = Some y /\ intt_b y = Some x.
+Proof. exact intt_ntt_b. Qed.
+Print Assumptions C06_intt_ntt.
+Theorem C06_ntt_intt : forall l x, (l <= 31)%nat -> length x = (2 ^ l)%nat -> Forall canon x ->
+  exists y, intt_b x = Some y /\ ntt_b y = Some x.
+Proof. exact ntt_intt_b. Qed.
+Print Assumptions C06_ntt_intt.
+
+(* length 0 and the documented panics *)
+Theorem C06_ntt_nil : ntt_b [] = Some [] /\ intt_b [] = Some [].
+Proof. exact ntt_b_nil. Qed.
+Print Assumptions C06_ntt_nil.
+Theorem C06_ntt_panics_not_pow2 : forall x : list Z, length x <> 0%nat -> (forall l, length x <> (2 ^ l)%nat) ->
+  ntt_b x = None /\ intt_b x = None.
+Proof. exact (ntt_panics_not_pow2 bfe_ops bfe_ops bb_act). Qed.
+Print Assumptions C06_ntt_panics_not_pow2.
+Theorem C06_ntt_panics_too_long : forall x : list Z, Z.of_nat (length x) > 4294967295 ->
+  ntt_b x = None /\ intt_b x = None.
+Proof. exact (ntt_panics_too_long bfe_ops bfe_ops bb_act). Qed.
+Print Assumptions C06_ntt_panics_too_long.
